@@ -251,6 +251,20 @@ pub fn big_lengths(lo: u64, hi: u64) -> Vec<u64> {
 
 /// All primes p in (lo, hi] whose p-1 has only the prime factors 2, 3, 5, 7, 11: the lengths every planner computes with
 /// Rader's algorithm over a fast inner FFT (the AVX planner's RadersAvx2 index arithmetic changes regime at 2^16).
+/// Safe primes n = 2q + 1 (q prime) in (lo, hi]: the lengths whose Rader reduction lands on twice a prime, i.e. the links of
+/// Cunningham chains - the worst case for the work of a planner that may recurse through prime lengths.
+pub fn safe_primes(lo: u64, hi: u64) -> Vec<u64> {
+    let mut v = Vec::new();
+    let mut n = lo + 1;
+    while n <= hi {
+        if n % 2 == 1 && is_prime_u64(n) && is_prime_u64((n - 1) / 2) {
+            v.push(n);
+        }
+        n += 1;
+    }
+    v
+}
+
 pub fn rader_primes(lo: u64, hi: u64) -> Vec<u64> {
     let mut smooth = vec![1u64];
     for p in [2u64, 3, 5, 7, 11] {
